@@ -33,6 +33,14 @@ def probe():
     return {"t": "probe"}
 
 
+def sldr():
+    return {"t": "sldr"}
+
+
+def seqkey():
+    return {"t": "sk"}
+
+
 VK_KEY = lambda o: {"kind": "key", "o": o}
 VK_LWH = lambda l: {"kind": "lwh", "l": l}
 VK_MAC = lambda *outs: {"kind": "macro", "outs": list(outs)}
@@ -64,6 +72,10 @@ def r_key(k):
         for s in k["steps"]:
             out.append(str(s) if isinstance(s, int) else (r_item_press(s[1]) if s[0] == "p" else r_item_release(s[1])))
         return "(macro " + " ".join(out) + ")"
+    if k["t"] == "sldr":
+        return "sldr"
+    if k["t"] == "sk":
+        return None     # its own name
     return PROBE_OUT[0]
 
 
@@ -75,14 +87,18 @@ def r_vk(vk):
     return "(macro " + " ".join(vk["outs"]) + ")"
 
 
-def make(vks, keys):
-    """vks: list of virtual key descriptions (v1, v2, ...); keys: ordered {name: key description}.
+def make(vks, keys, seqs=(), seq_timeout=0):
+    """vks: list of virtual key descriptions (v1, v2, ...); keys: ordered {name: key description};
+    seqs: [(key names, virtual key)] defseq entries.
     Returns (kbd text, monitor params) - two independent renderings of the same description."""
     names = list(keys)
     nlayers = 1 + max([vk["l"] for vk in vks if vk["kind"] == "lwh"] + [0])
     lines = ["(defsrc " + " ".join(names) + ")",
              "(defvirtualkeys " + " ".join("%s %s" % (vname(i + 1), r_vk(vk)) for i, vk in enumerate(vks)) + ")",
-             "(deflayer l0 " + " ".join(r_key(keys[n]) for n in names) + ")"]
+             "(deflayer l0 " + " ".join(r_key(keys[n]) or n for n in names) + ")"]
+    if seqs:
+        lines.insert(0, "(defcfg sequence-timeout %d)" % seq_timeout)
+        lines.append("(defseq " + " ".join("%s (%s)" % (vname(v), " ".join(ks)) for ks, v in seqs) + ")")
     for l in range(1, nlayers):
         lines.append("(deflayer l%d " % l + " ".join(PROBE_OUT[l] if keys[n]["t"] == "probe" else "_" for n in names) + ")")
     kbd = "\n".join(lines) + "\n"
@@ -104,7 +120,8 @@ def make(vks, keys):
                 maxd = max(maxd, it["d"])
         pkeys.append({"c": C(n), "t": k["t"], "onp": k.get("onp", []), "onr": k.get("onr", []), "steps": steps,
                       "o": [C(o) for o in PROBE_OUT[:nlayers]] if k["t"] == "probe" else []})
-    params = {"vk": pvk, "keys": pkeys, "slack": SLACK, "qcap": QCAP, "maxd": maxd}
+    params = {"vk": pvk, "keys": pkeys, "slack": SLACK, "qcap": QCAP, "maxd": maxd,
+              "seqs": [{"ks": [C(k) for k in ks], "v": v} for ks, v in seqs], "seqT": seq_timeout}
     return kbd, params
 
 
@@ -123,14 +140,15 @@ def family(tier):
     # on-idle D in {2,3}
     F.append(("idle2", [x], {"a": cust([idle(1, "tap", 2)]), "b": pr}, [(0, "toggle")], 3, 3))
     F.append(("idle3", [x, y], {"a": cust([idle(1, "press", 3)]), "b": cust([idle(2, "tap", 2)], [op(1, "release")])},
-              [(1, "tap")], 3, 3))
+              [(1, "tap")] if tier != "quick" else [], 3, 3))
     # layer-while-held virtual key seen through a probe key
     F.append(("lwh", [VK_LWH(1), y], {"a": cust([op(1, "press")], [op(1, "release")]), "p": probe()},
-              [(0, "toggle"), (0, "tap"), (1, "toggle")], 3, 3))
+              [(0, "toggle"), (0, "tap"), (1, "toggle")] if tier != "quick" else [(0, "toggle"), (1, "tap")],
+              3, 3 if tier != "quick" else 2))
     # macro items as triggers, macro-carrying virtual key
     F.append(("macro", [x, VK_MAC("y")],
               {"a": macro(("p", op(1, "press")), 2, ("p", op(1, "release"))), "b": cust([op(2, "tap")])},
-              [(0, "toggle"), (1, "tap")], 4, 3))
+              [(0, "toggle"), (1, "tap")] if tier != "quick" else [(0, "toggle")], 4, 3 if tier != "quick" else 2))
     if tier != "quick":
         F.append(("ops2", [x, y], {"a": cust([op(1, "tap"), op(2, "toggle")]), "b": cust([op(2, "press")], [op(1, "toggle")])},
                   [(0, "press"), (0, "release"), (1, "tap")], 4, 3))
@@ -145,6 +163,7 @@ def family(tier):
                   [(0, "press"), (1, "toggle")], 4, 3))
         F.append(("lwh2", [VK_LWH(1), VK_LWH(2)], {"a": cust([op(1, "toggle")]), "b": cust([hfd(2, 3)]), "p": probe()},
                   [(0, "release"), (1, "tap")], 4, 3))
+        F.append(("ops1_racy", [x], {"a": cust([op(1, "toggle")]), "b": pr}, [(0, "press"), (0, "toggle")], 3, 3))
         F.append(("ops1_q4", [x], {"a": cust([op(1, "toggle")]), "b": pr}, [(0, o) for o in OPS], 4, 4))
     return F
 
@@ -152,7 +171,7 @@ def family(tier):
 def mc_instance(name, kbd, params, keys, direct, max_states, qmax, prune_racy=True):
     fkset = "{" + ", ".join('<<%d, "%s">>' % (i, o) for i, o in direct) + "}"
     return {"name": "c18_" + name, "kbd": kbd, "keys": keys, "qmax": qmax,
-            "monitor": {"module": "P_C18", "params": params},
+            "monitor": {"module": "P_C18", "params": params}, "invariants": [],
             # the direct trigger: the function the TCP server calls after its name lookup (coordinate x = 1)
             "extra_actions":
                 "FkSet == %s\n" % fkset +
@@ -167,33 +186,62 @@ def mc_instance(name, kbd, params, keys, direct, max_states, qmax, prune_racy=Tr
             # ... and (prune_racy) do not go on behind a toggle issued while the key's state is in flight: that is the
             # recorded finding, its witnesses are scripted below and found by TLC itself in the unpruned instance
             "constraint": "VkBound",
-            "extra_defs": "VkBound == Len(K.L.states) <= %d%s" % (max_states, " /\\ ~mon.rt" if prune_racy else "")}
+            "extra_defs": "VkBound == Len(K.L.states) <= %d%s" % (max_states, " /\\ mon.rt = {}" if prune_racy else "")}
 
 
 # ---- random histories beyond the bounds --------------------------------------------------------------
-def rand_script(rng, keys, direct, n_events, gaps, tail):
-    """Physically consistent key events interleaved with direct operations; at most 16 events pending."""
+def key_cost(k):
+    """(ticks one event of this key may keep virtual key work in flight, may it issue a toggle)"""
+    items = list(k.get("onp", [])) + list(k.get("onr", [])) + [s[1] for s in k.get("steps", []) if not isinstance(s, int)]
+    cost = 3 + 2 * len(items) + sum(s for s in k.get("steps", []) if isinstance(s, int)) + 2 * len(k.get("steps", []))
+    cost += sum(it["d"] + 2 for it in items if it["k"] == "hfd")
+    return cost, any(it["op"] == "toggle" for it in items)
+
+
+def rand_script(rng, kdesc, direct, n_events, gaps, tail, clean):
+    """Physically consistent key events interleaved with direct operations, at most ~16 events pending.
+    clean: a step that may issue a toggle waits until earlier work has drained (no toggle is issued while the
+    key's state is in flight - the recorded finding); otherwise anything goes."""
+    names = list(kdesc)
     down, s, pending = set(), [], 0
     for _ in range(n_events):
         if direct and rng.random() < 0.4:
             i, o = rng.choice(direct)
-            s.append(["fk", i, o])
-            pending += 2
+            step, cost, tog = ["fk", i, o], 2, o == "toggle"
         else:
-            k = rng.choice(keys)
-            s.append(["u" if k in down else "d", k])
-            down.symmetric_difference_update({k})
-            pending += 3
+            n = rng.choice(names)
+            cost, tog = key_cost(kdesc[n])
+            step = ["u" if n in down else "d", cfgdesc.code(n)]
+            down.symmetric_difference_update({n})
+        if clean and tog and pending:
+            s.append(["t", pending + 1])
+            pending = 0
+        s.append(step)
+        pending += cost
         g = rng.choice(gaps)
         if pending > 14:
             g = max(g, pending)
         if g:
             s.append(["t", g])
             pending = max(0, pending - g)
-    for k in sorted(down):
-        s += [["u", k], ["t", 1]]
+    for n in sorted(down):
+        s += [["t", pending + 1], ["u", cfgdesc.code(n)]]
+        pending = key_cost(kdesc[n])[0]
     s.append(["t", tail])
     return s
+
+
+def finding_scripts(kdesc, direct):
+    """Scripted witnesses of the recorded finding (toggle while the key's state is in flight)."""
+    out = []
+    if (0, "toggle") in direct:
+        out.append([["fk", 0, "toggle"], ["fk", 0, "toggle"], ["t", 8]])
+        out.append([["fk", 0, "press"], ["fk", 0, "toggle"], ["t", 8]])
+    for n, k in kdesc.items():
+        if k["t"] == "cust" and any(it["op"] == "toggle" for it in k["onp"]):
+            c = cfgdesc.code(n)
+            out.append([["d", c], ["u", c], ["d", c], ["t", 8], ["u", c], ["t", 8]])
+    return out
 
 
 def run(tier, seed):
@@ -205,7 +253,7 @@ def run(tier, seed):
     for name, vks, kdesc, direct, max_states, qmax in family(tier):
         kbd, params = make(vks, kdesc)
         keys = [cfgdesc.code(k) for k in kdesc]
-        inst = mc_instance(name, kbd, params, keys, direct, max_states, qmax)
+        inst = mc_instance(name, kbd, params, keys, direct, max_states, qmax, prune_racy=not name.endswith("_racy"))
         r = mc.check_instance(inst, wd, workers=8, timeout=1500)
         res.add_instance(r)
         if len(res.samples) < 4:
@@ -216,11 +264,13 @@ def run(tier, seed):
                   [flow.hist_to_script(d["h"], 12) for d in r.get("drift_samples", [])]
         if scripts:
             witness_jobs.append({"cfg": kbd, "params": params, "tag": "w:" + name, "scripts": scripts})
+        if name.startswith("ops1"):
+            witness_jobs.append({"cfg": kbd, "params": params, "tag": "f:" + name, "scripts": finding_scripts(kdesc, direct)})
         n = 40 if tier == "quick" else 250
         alld = [(i, o) for i in range(len(vks)) for o in OPS]
         D = max([params["maxd"]] + [it["d"] for k in kdesc.values() for it in k.get("onp", [])] + [2])
-        scripts = [rand_script(rng, keys, alld if j % 2 else direct, rng.randint(4, 30 if tier == "quick" else 120),
-                               [0, 0, 1, 1, 2, D - 1, D, D + 1, 2 * D + 2], 30) for j in range(n)]
+        scripts = [rand_script(rng, kdesc, alld if j % 2 else direct, rng.randint(4, 30 if tier == "quick" else 120),
+                               [0, 0, 1, 1, 2, D - 1, D, D + 1, 2 * D + 2], 30, clean=j % 4 != 3) for j in range(n)]
         jobs_random.append({"cfg": kbd, "params": params, "tag": "r:" + name, "scripts": scripts})
     for label, jobs in (("witness", witness_jobs), ("random", jobs_random)):
         if not jobs:
